@@ -9,7 +9,7 @@ from vcgen.api import *  # noqa
 
 R = Registry("whatshap/cli/phase.py")
 R.declare_class("Path", {"lines": LIST(INT)})
-R.declare_class("Variant", {"position": INT, "reference_allele": INT, "alternative_allele": INT})
+R.declare_class("Variant", {"position": INT, "reference_allele": INT, "alternative_allele": INT, "allele": INT})
 R.declare_class("Change", {"sample": INT, "chromosome": INT, "variant": REF("Variant"), "old_gt": INT, "new_gt": INT})
 HEADER = z3.IntVal(-7)
 LINE = z3.Function("LINE", *([z3.IntSort()] * 8))
@@ -282,6 +282,131 @@ R.contract(
         ("rows", _RL_ROWS % "ri")])},
     extra={"assume_asserts": [0], "nullable": {}},
     props=["C20"])
+
+
+# ---------------------------------------------------------------------------------------------------------------------------------
+# compute_overall_components (C03, pedigree mode): find_components is called with the right master block and heterozygosity map --
+# stated as the same exact-components postcondition, with "homozygous in some family member" and "heterozygous in the read's sample"
+# spelled out from the inputs (super-reads when genotypes are distrusted, the homozygous_positions list otherwise).
+R.declare_class("SuperReads", {"h0": REF("Read"), "h1": REF("Read")})
+R.declare_class("NumericIds", {"fwd": DICT(INT, INT)})
+
+
+class SuperReadsModel:
+    @staticmethod
+    def star(eng, st, obj):
+        return [VRef("Read", to_z3(eng.load_field(st, obj, "h0"))), VRef("Read", to_z3(eng.load_field(st, obj, "h1")))]
+
+
+class NumericIdsModel:
+    @staticmethod
+    def getitem(eng, st, obj, key):
+        d = eng.load_field(st, obj, "fwd")
+        return eng.getitem(d, key, st)
+
+
+R.object_models.update({"SuperReads": SuperReadsModel, "NumericIds": NumericIdsModel})
+
+_SR = "superreads_list[{f}]"
+_NV = "min(len(superreads_list[{f}].h0.variants), len(superreads_list[{f}].h1.variants))"
+_AT = "(0 <= {i} and {i} < " + _NV + " and superreads_list[{f}].h0.variants[{i}].position == {p} and {p} in {acc})"
+_A0 = "superreads_list[{f}].h0.variants[{i}].allele"
+_A1 = "superreads_list[{f}].h1.variants[{i}].allele"
+_HETGT = "((" + _A0 + " == 0 and " + _A1 + " == 1) or (" + _A0 + " == 1 and " + _A1 + " == 0))"
+_HOMGT = "((" + _A0 + " == 0 and " + _A1 + " == 0) or (" + _A0 + " == 1 and " + _A1 + " == 1))"
+_NF = "min(len(family), len(superreads_list))"
+
+
+def _het_in(f, p, acc, upto=None):
+    return "exists(i, " + _AT.format(f=f, i="i", p=p, acc=acc) + (" and i < %s" % upto if upto else "") + " and " + _HETGT.format(f=f, i="i") + ")"
+
+
+def _hom_in(f, p, acc, upto=None):
+    return "exists(i, " + _AT.format(f=f, i="i", p=p, acc=acc) + (" and i < %s" % upto if upto else "") + " and " + _HOMGT.format(f=f, i="i") + ")"
+
+
+def _hetspec(sid, p, acc):
+    return "exists(f, 0 <= f and f < " + _NF + " and numeric_sample_ids.fwd[family[f]] == " + sid + " and " + _het_in("f", p, acc) + ")"
+
+
+def _homany(p, acc, bound=_NF):
+    return ("ite(distrust_genotypes, exists(f, 0 <= f and f < " + bound + " and " + _hom_in("f", p, acc) + "), "
+            "exists(h, 0 <= h and h < len(homozygous_positions) and homozygous_positions[h] == " + p + ") and " + p + " in " + acc + ")")
+
+
+_HETP = z3.Function("HET_IN_SAMPLE", z3.IntSort(), z3.IntSort(), z3.BoolSort())
+_HOMP = z3.Function("HOM_IN_SOME_MEMBER", z3.IntSort(), z3.BoolSort())
+
+
+@R.spec
+def HETP(eng, st, sid, p):
+    """ghost name for: position p is accessible and heterozygous (super-read alleles 0|1 or 1|0) in the family member with numeric id sid"""
+    return _HETP(to_z3(sid), to_z3(p))
+
+
+@R.spec
+def HOMP(eng, st, p):
+    """ghost name for: position p is accessible and homozygous in some family member"""
+    return _HOMP(to_z3(p))
+
+
+def _pass2(rr, i, acc):
+    pos = "all_reads[%s].variants[%s].position" % (rr, i)
+    return "(" + pos + " in " + acc + " and (not distrust_genotypes or HETP(all_reads[%s].sample_id, %s)))" % (rr, pos)
+
+
+_MASTER_ON = "(len(family) > 1 and genetic_haplotyping)"
+_ACC = "accessible_positions"
+_COC_REQ = [
+    ("reads-valid", "forall(rr, implies(0 <= rr and rr < len(all_reads), all_reads[rr] is not None))"),
+    ("variants-valid", "forall(rr, i, implies(0 <= rr and rr < len(all_reads) and 0 <= i and i < len(all_reads[rr].variants), all_reads[rr].variants[i] is not None))"),
+    ("positions-distinct-within-read", "forall(rr, i, j, implies(0 <= rr and rr < len(all_reads) and 0 <= i and i < j and j < len(all_reads[rr].variants), "
+                                       "all_reads[rr].variants[i].position != all_reads[rr].variants[j].position))"),
+    ("superreads-valid", "forall(f, implies(0 <= f and f < len(superreads_list), superreads_list[f] is not None and superreads_list[f].h0 is not None and superreads_list[f].h1 is not None))"),
+    ("superread-variants-valid", "forall(f, i, implies(0 <= f and f < len(superreads_list) and 0 <= i and i < " + _NV.format(f="f") + ", "
+                                 "superreads_list[f].h0.variants[i] is not None and superreads_list[f].h1.variants[i] is not None and "
+                                 "superreads_list[f].h0.variants[i].position == superreads_list[f].h1.variants[i].position))"),
+    ("family-ids-known", "forall(f, implies(0 <= f and f < len(family), family[f] in numeric_sample_ids.fwd))"),
+    ("family-ids-distinct", "forall(f, g, implies(0 <= f and f < g and g < len(family), numeric_sample_ids.fwd[family[f]] != numeric_sample_ids.fwd[family[g]]))"),
+    ("read-samples-in-family", "implies(distrust_genotypes, forall(rr, implies(0 <= rr and rr < len(all_reads), exists(f, 0 <= f and f < " + _NF + " and numeric_sample_ids.fwd[family[f]] == all_reads[rr].sample_id))))"),
+    ("hetp-definition", "forall(sid, p, HETP(sid, p) == " + _hetspec("sid", "p", _ACC) + ")"),
+    ("homp-definition", "forall(p, HOMP(p) == " + _homany("p", _ACC) + ")"),
+    ("cls-closed-under-reads", "forall(rr, i, j, implies(0 <= rr and rr < len(all_reads) and 0 <= i and i < len(all_reads[rr].variants) and 0 <= j and j < len(all_reads[rr].variants) and "
+                               + _pass2("rr", "i", _ACC) + " and " + _pass2("rr", "j", _ACC) + ", CLS(all_reads[rr].variants[i].position) == CLS(all_reads[rr].variants[j].position)))"),
+    ("cls-closed-under-master", "implies(" + _MASTER_ON + ", forall(p, q, implies(HOMP(p) and HOMP(q), CLS(p) == CLS(q))))"),
+]
+_SETACC = "accessible_positions_set"
+R.contract(
+    "compute_overall_components",
+    params={"accessible_positions": LIST(INT), "all_reads": LIST(REF("Read")), "distrust_genotypes": BOOL, "family": LIST(INT), "genetic_haplotyping": BOOL,
+            "homozygous_positions": LIST(INT), "numeric_sample_ids": REF("NumericIds"), "superreads_list": LIST(REF("SuperReads"))},
+    returns=DICT(INT, INT),
+    requires=_COC_REQ,
+    ensures=[
+        ("domain", "forall(v, (v in result) == (v in accessible_positions))"),
+        ("named-by-leftmost", "forall(v, implies(v in result, result[v] <= v and result[v] in result and result[result[v]] == result[v]))"),
+        ("read-linked-variants-share-a-set", "forall(rr, i, j, implies(0 <= rr and rr < len(all_reads) and 0 <= i and i < len(all_reads[rr].variants) and 0 <= j and j < len(all_reads[rr].variants) and "
+                                             + _pass2("rr", "i", _ACC) + " and " + _pass2("rr", "j", _ACC) + ", result[all_reads[rr].variants[i].position] == result[all_reads[rr].variants[j].position]))"),
+        ("variants-homozygous-in-a-family-member-share-one-set", "implies(" + _MASTER_ON + ", forall(p, q, implies(HOMP(p) and HOMP(q), result[p] == result[q])))"),
+        ("no-coarser-than-any-closed-partition", "forall(a, b, implies(a in result and b in result and result[a] == result[b], CLS(a) == CLS(b)))"),
+    ],
+    locals={"master_block": MAYBE(LIST(INT)), "heterozygous_positions_by_sample": MAYBE(DICT(INT, SET(INT))), "hom_in_any_sample": SET(INT), "hets": SET(INT),
+            "sample": INT, "sample_superreads": REF("SuperReads"), "v1": REF("Variant"), "v2": REF("Variant")},
+    loops={
+        0: dict(index="fi", inv=[
+            ("acc-set", "forall(p, (p in accessible_positions_set) == (p in accessible_positions))"),
+            ("hom", "forall(p, (p in hom_in_any_sample) == exists(f, 0 <= f and f < fi and " + _hom_in("f", "p", _ACC) + "), triggers=[p in hom_in_any_sample, HOMP(p)])"),
+            ("map-keys", "heterozygous_positions_by_sample is not None and forall(sid, (sid in heterozygous_positions_by_sample) == exists(f, 0 <= f and f < fi and numeric_sample_ids.fwd[family[f]] == sid))"),
+            ("map-values", "forall(f, p, implies(0 <= f and f < fi, (p in heterozygous_positions_by_sample[numeric_sample_ids.fwd[family[f]]]) == " + _het_in("f", "p", _ACC) + "))"),
+            ("map-by-sample-id", "forall(sid, p, implies(sid in heterozygous_positions_by_sample, (p in heterozygous_positions_by_sample[sid]) == HETP(sid, p)))"),
+        ]),
+        1: dict(index="vi", inv=[
+            ("acc-set", "forall(p, (p in accessible_positions_set) == (p in accessible_positions))"),
+            ("hets", "forall(p, (p in hets) == " + _het_in("fi", "p", _ACC, upto="vi") + ")"),
+            ("hom", "forall(p, (p in hom_in_any_sample) == (exists(f, 0 <= f and f < fi and " + _hom_in("f", "p", _ACC) + ") or " + _hom_in("fi", "p", _ACC, upto="vi") + "))"),
+        ]),
+    },
+    props=["C03"])
 
 
 def CROSSCHECK():
